@@ -115,6 +115,17 @@ void check_shape(V const& v, Model& m, char const* after) {
 		VP_CHECK(f[k] == x.first, "shape/extensions", "dim " << k << ": first index " << f[k] << " model " << x.first << " after " << after);
 		if(x.size > 1) { VP_CHECK(st[k] == x.stride, "shape/strides", "dim " << k << ": stride " << st[k] << " model " << x.stride << " after " << after); }
 	}
+	// the same shape through the other observers: leading stride(), the layout object's own observers and extension(k), the free num_elements()
+	if(m.d[0].size > 1) { VP_CHECK(static_cast<long>(v.stride()) == m.d[0].stride, "shape/stride0", "stride()=" << v.stride() << " model " << m.d[0].stride << " after " << after); }
+	auto const& ly = v.layout();
+	VP_CHECK(static_cast<long>(ly.num_elements()) == m.nelems(), "shape/layout_num_elements", "layout().num_elements()=" << ly.num_elements() << " model " << m.nelems() << " after " << after);
+	VP_CHECK(static_cast<long>(ly.size()) == m.d[0].size, "shape/layout_size", "layout().size()=" << ly.size() << " model " << m.d[0].size << " after " << after);
+	VP_CHECK(!ly.is_empty(), "shape/layout_is_empty", "layout().is_empty() on a view with " << m.nelems() << " elements after " << after);
+	VP_CHECK(static_cast<long>(num_elements(v)) == m.nelems(), "shape/free_num_elements", "num_elements(v)=" << num_elements(v) << " model " << m.nelems() << " after " << after);
+	for(int k = 0; k < D; ++k) {
+		auto const xk = ly.extension(static_cast<multi::dimensionality_type>(k));
+		VP_CHECK(static_cast<long>(xk.first()) == f[k] && static_cast<long>(xk.last()) == l[k], "shape/extension_k", "layout().extension(" << k << ")=[" << xk.first() << "," << xk.last() << ") but extensions() has [" << f[k] << "," << l[k] << ") after " << after);
+	}
 }
 
 // full element check: four access paths, address == model position == value, inside [0,N)
